@@ -587,7 +587,7 @@ def convert_argmax_to_depthwise_conv_and_max_pool(op: Operation, arch, nng) -> O
         # the base value to c-1 and slope to -128. The 16-bit LUT uses a table of 32-bit values where the top 16 bits
         # represent the slope and bottom 16 bits the base which are used to interpolate the activation value.
         slope = (-128 & 0xFFFF) << 16  # Top 16 bits of 32 bit LUT table value
-        base = c - 1  # Bottom 16 bits of the LUT table value
+        base = int(c) - 1  # Bottom 16 bits of the LUT table value
         lut_tensor = create_const_tensor(
             "maxpool_LUT_extract_7_LSB",
             [1, 1, 1, 512],
